@@ -9,6 +9,7 @@ import KitProofs.Lemmas.EncSegs
 import KitProofs.Lemmas.EncHeader
 import KitProofs.Lemmas.EncDecrypt
 import KitProofs.Lemmas.EncToy
+import KitProofs.Lemmas.EncRealLaws
 
 namespace Kit.Enc.C01
 open Kit Kit.Enc
@@ -78,8 +79,8 @@ theorem encrypt_layout (c : Crypto) (cd : Codec) (P : EncParams) (pwf : P.WF) (o
 
 /-- The layout of the specification document: header of three newline-terminated lines, then
     `⌈|p|/S⌉` sealed segments, each `overhead` bytes longer than its plaintext; none for `p = []`. -/
-theorem spec_layout (c : Crypto) (cd : Codec) (P : EncParams) (pwf : P.WF) (lc : c.Lawful P.overhead)
-    (fk : Bytes) (m : Manifest) (p : Bytes) :
+theorem spec_layout (c : Crypto) (cd : Codec) (P : EncParams) (pwf : P.WF)
+    (fk : Bytes) (m : Manifest) (lc : c.LawfulFor P (payloadKey c P fk m.np) m.np) (p : Bytes) :
     specEncrypt c cd P fk m p =
       P.scheme ++ [10] ++ cd.render m ++ [10] ++ cd.b64 (headerMac c P fk (cd.render m)) ++ [10] ++
         ((sealedSegs c P m.cph (payloadKey c P fk m.np) m.np 0 (segments P.segSize p)).map (·.1)).flatten ∧
@@ -131,15 +132,15 @@ example : HdrWF [100] [123, 125] [65] := ⟨by simp, by simp, by simp, by simp, 
     and releases exactly the plaintext with a clean EOF — for every lawful AEAD and codec, every
     file key, manifest, plaintext, and every script of the document source. -/
 theorem decrypt_encrypt (c : Crypto) (cd : Codec) (P : EncParams) (pwf : P.WF)
-    (lc : c.Lawful P.overhead) (lcd : cd.Lawful P) (fk : Bytes) (hfk : fk.length = P.fkLen)
-    (m : Manifest) (hm : m.valid P = true) (p : Bytes) (o : DecryptOpts)
+    (lcd : cd.Lawful P) (fk : Bytes) (hfk : fk.length = P.fkLen)
+    (m : Manifest) (lc : c.LawfulFor P (payloadKey c P fk m.np) m.np) (hm : m.valid P = true) (p : Bytes) (o : DecryptOpts)
     (hkn : o.keyName ≠ [] ∨ m.keyName ≠ []) (hunwrap : ∀ kn, o.unwrap m kn = fk)
     (hhdr : (signHeader c cd P fk (cd.render m)).length ≤ P.hdrMax)
     (hcount : (segments P.segSize p).length ≤ P.maxSeg + 1)
     (r : Reader) (heof : r.term = .eof) (hstream : r.stream = specEncrypt c cd P fk m p) :
     decryptImpl c cd P o r = (p, .ok) := by
   rw [specEncrypt_eq, ← signHeader_eq] at hstream
-  obtain ⟨r', hrs, hrt, hdec⟩ := decrypt_of_honest_header true c cd P pwf lc lcd fk hfk m hm o hkn hunwrap _ r heof hhdr hstream
+  obtain ⟨r', hrs, hrt, hdec⟩ := decrypt_of_honest_header true c cd P pwf lc.hmac_ne lcd fk hfk m hm o hkn hunwrap _ r heof hhdr hstream
   unfold decryptImpl
   rw [hdec]
   have hfails : r'.term.fails = false := by rw [hrt]; rfl
@@ -158,21 +159,21 @@ theorem decrypt_encrypt (c : Crypto) (cd : Codec) (P : EncParams) (pwf : P.WF)
 /-- **Interop, other direction.** A decoder written from README.md alone (`specDecrypt`) opens what
     `Encrypt` writes, for every script of the plaintext source. -/
 theorem spec_decrypts_impl (c : Crypto) (cd : Codec) (P : EncParams) (pwf : P.WF)
-    (lc : c.Lawful P.overhead) (lcd : cd.Lawful P) (o : EncryptOpts) (fk np wfk : Bytes)
-    (hm : (mkManifest o wfk np).valid P = true) (r : Reader) (heof : r.term = .eof)
+    (lcd : cd.Lawful P) (o : EncryptOpts) (fk np wfk : Bytes)
+    (lc : c.LawfulFor P (payloadKey c P fk np) np) (hm : (mkManifest o wfk np).valid P = true) (r : Reader) (heof : r.term = .eof)
     (hhdr : (signHeader c cd P fk (cd.render (mkManifest o wfk np))).length ≤ P.segSize)
     (hcount : (segments P.segSize r.stream).length ≤ P.maxSeg + 1) :
     specDecrypt c cd P fk (encryptImpl c cd P o fk np wfk r).1 = some r.stream := by
   rw [encrypt_layout c cd P pwf o fk np wfk r heof hhdr hcount]
-  exact specDecrypt_specEncrypt c cd P pwf lc lcd fk _ hm r.stream
+  exact specDecrypt_specEncrypt c cd P pwf lcd fk _ lc hm r.stream
 
 /-- `Decrypt ∘ Encrypt = id` on the implementation-shaped functions themselves, including the header
     limit: whatever header `Encrypt` agrees to emit (`SignHeader` refuses more than `segSize` bytes)
     fits the buffer `readHeader` reads into (`hdrMax`), so every document `Encrypt` produces — with key
     names or wrapped keys of any size it accepts — is opened, for every script on both sides. -/
 theorem decrypt_encryptImpl (c : Crypto) (cd : Codec) (P : EncParams) (pwf : P.WF)
-    (lc : c.Lawful P.overhead) (lcd : cd.Lawful P) (hlim : P.segSize ≤ P.hdrMax)
-    (eo : EncryptOpts) (fk np wfk : Bytes) (hfk : fk.length = P.fkLen)
+    (lcd : cd.Lawful P) (hlim : P.segSize ≤ P.hdrMax)
+    (eo : EncryptOpts) (fk np wfk : Bytes) (lc : c.LawfulFor P (payloadKey c P fk np) np) (hfk : fk.length = P.fkLen)
     (hm : (mkManifest eo wfk np).valid P = true) (o : DecryptOpts)
     (hkn : o.keyName ≠ [] ∨ (mkManifest eo wfk np).keyName ≠ [])
     (hunwrap : ∀ kn, o.unwrap (mkManifest eo wfk np) kn = fk)
@@ -182,20 +183,38 @@ theorem decrypt_encryptImpl (c : Crypto) (cd : Codec) (P : EncParams) (pwf : P.W
     (r : Reader) (heof : r.term = .eof) (hstream : r.stream = (encryptImpl c cd P eo fk np wfk src).1) :
     decryptImpl c cd P o r = (src.stream, .ok) := by
   rw [encrypt_layout c cd P pwf eo fk np wfk src hsrc hhdr hcount] at hstream
-  exact decrypt_encrypt c cd P pwf lc lcd fk hfk _ hm src.stream o hkn hunwrap (by omega) hcount r heof hstream
+  exact decrypt_encrypt c cd P pwf lcd fk hfk _ lc hm src.stream o hkn hunwrap (by omega) hcount r heof hstream
+
+/-- The parameters regenerated from the Go source satisfy what the theorems assume. -/
+theorem generated_wf : EncParams.generated.WF :=
+  ⟨by decide, by decide, by decide⟩
+
+/-! ### the concrete Lean crypto the driver runs -/
+
+/-- The AEAD/HKDF/HMAC instance `kitdrv` executes is lawful on every run (`realCrypto_lawful`): the
+    round-trip theorem therefore holds for the **concrete** Lean AES-GCM and ChaCha20-Poly1305, with no
+    hypothesis about the primitives left. -/
+theorem decrypt_encrypt_real_crypto (cd : Codec) (lcd : cd.Lawful EncParams.generated)
+    (fk : Bytes) (hfk : fk.length = 32) (m : Manifest) (hm : m.valid EncParams.generated = true) (p : Bytes)
+    (o : DecryptOpts) (hkn : o.keyName ≠ [] ∨ m.keyName ≠ []) (hunwrap : ∀ kn, o.unwrap m kn = fk)
+    (hhdr : (signHeader Real.realCrypto cd EncParams.generated fk (cd.render m)).length ≤ 65536)
+    (hcount : (segments 65536 p).length ≤ 2 ^ 32)
+    (r : Reader) (heof : r.term = .eof)
+    (hstream : r.stream = specEncrypt Real.realCrypto cd EncParams.generated fk m p) :
+    decryptImpl Real.realCrypto cd EncParams.generated o r = (p, .ok) :=
+  decrypt_encrypt Real.realCrypto cd EncParams.generated generated_wf lcd fk hfk m
+    (Real.realCrypto_lawful fk m.np) hm p o hkn hunwrap hhdr hcount r heof hstream
 
 /-- T1: in the source the two limits coincide (both are `SegmentSize` = 64 KiB). -/
 theorem header_limit_matches :
     EncParams.generated.segSize ≤ EncParams.generated.hdrMax ∧ Gen.headerLimit = Gen.segmentSize ∧
     Gen.encryptSegmentArg = Gen.segmentSize := by decide
 
-/-- The parameters regenerated from the Go source satisfy what the theorems assume. -/
-theorem generated_wf : EncParams.generated.WF :=
-  ⟨by decide, by decide, by decide⟩
 
 /-! Non-vacuity: a lawful AEAD and a lawful codec exist (`KitProofs/Lemmas/EncToy.lean`), for the
     generated parameters, with a valid manifest and a resolvable key name. -/
 example : Toy.toyCrypto.Lawful EncParams.generated.overhead := Toy.toyCrypto_lawful
+example (pk np : Bytes) : Toy.toyCrypto.LawfulFor EncParams.generated pk np := Toy.toyCrypto_lawful.for pk np
 example : Toy.toyCodec.Lawful EncParams.generated := Toy.toyCodec_lawful _
 example : (⟨[107], 1, [1, 2, 3], 2, [1, 2, 3, 4, 5, 6, 7]⟩ : Manifest).valid EncParams.generated = true := by decide
 
